@@ -434,7 +434,7 @@ EMPTY_ABS = {"fl": [], "idef": "none", "objs": [], "acts": [], "aeffs": [], "goa
              "mets": [], "init": [], "tm": False}
 
 
-def replay(job):
+def replay_job(job):
     """job = {"id", "base": spec, "pre": [edit], "post": [{"e": edit, "tgt"}]} -> trace record"""
     cls = job["base"]["cls"]
     out = {"id": job["id"], "cls": cls, "ops": [], "skip": ""}
@@ -564,6 +564,7 @@ CONSTANTS TimN = {%(tim)s}
  DurT = {%(durt)s}
  MaxPre = %(pre)d
  MaxPost = %(post)d
+ MaxTotal = %(total)d
  Small = %(small)s
  Configs = "%(configs)s"
  ClsSet = {"plain", "cont", "htn", "ma"}
@@ -581,16 +582,20 @@ CONSTRAINT Prune
 UNCOPIED = {"plain": ["tinc"], "cont": ["traj", "tasg", "tinc", "tm", "mdef"], "htn": ["traj", "tasg", "tinc", "tm", "mdef"], "ma": ["idef"]}
 
 
-def t1(ctx, label, pre, post, small, configs, full_universe=False, strict=False):
+def t1(ctx, label, pre, post, total, small, configs, full_universe=False, strict=False):
     d = ctx.sub("t1-" + label)
     cfg = T1_CFG % dict(
         tim='"t1", "t2"' if full_universe else '"t1"',
         durt='"s", "e"' if full_universe else '"s"',
-        pre=pre, post=post, small="TRUE" if small else "FALSE", configs=configs, strict="TRUE" if strict else "FALSE",
+        pre=pre, post=post, total=total, small="TRUE" if small else "FALSE", configs=configs, strict="TRUE" if strict else "FALSE",
     )
-    res = tlc.run_tlc("MCModelClone", cfg, d, timeout=6000, workers=8)
+    res = tlc.run_tlc("MCModelClone", cfg, d, timeout=6000, workers=8, coverage=True)
     if res.error:
         raise MachineryError("T1 %s: %s" % (label, res.error))
+    if not res.violated:
+        idle = [a for a in ("Pre", "DoClone", "Post") if res.coverage.get(a, (0, 0))[1] == 0]
+        if idle:
+            raise MachineryError("T1 %s is vacuous: actions never taken: %s" % (label, idle))
     cex = {}
     for p in res.printed:
         if p and p[0] == "T1CEX":
@@ -608,8 +613,8 @@ def run_t1(ctx):
     out = {}
     # (a) the repaired clone() (every field copied) satisfies all invariants; (b) every field the real
     # clone() of a class does not copy shows as a counterexample of the as-written design
-    res, cex = t1(ctx, "code", 2, 0 if q else 1, True, "code")
-    ctx.add_tlc("T1 as-written + repaired, pre<=2 post<=%d (+1 look-ahead), representative edits" % (0 if q else 1), res)
+    res, cex = t1(ctx, "code", 2, 1, 2 if q else 3, True, "code")
+    ctx.add_tlc("T1 as-written + repaired, pre<=2 post<=1 total<=%d (+1 look-ahead), representative edits" % (2 if q else 3), res)
     if res.violated:
         ctx.violation(
             "T1|repaired|" + res.violated,
@@ -619,18 +624,18 @@ def run_t1(ctx):
     out["uncopied_field_counterexamples"] = {"%s/%s" % k: v for k, v in sorted(cex.items())}
     out["uncopied_fields_without_counterexample"] = sorted("%s/%s" % (c, f) for c in UNCOPIED for f in UNCOPIED[c] if (c, f) not in cex)
     if not q:
-        res2, _ = t1(ctx, "full", 1, 2, True, "full")
+        res2, _ = t1(ctx, "full", 1, 2, 3, True, "full")
         ctx.add_tlc("T1 repaired, pre<=1 post<=2 (+1 look-ahead)", res2)
         if res2.violated:
             ctx.violation("T1|repaired|" + res2.violated, "the Impl layer with every field copied violates %s" % res2.violated,
                           {"trace": [s["vars"] for s in res2.trace]})
-        res3, _ = t1(ctx, "fullu", 1, 1, False, "full", full_universe=True)
+        res3, _ = t1(ctx, "fullu", 1, 1, 2, False, "full", full_universe=True)
         ctx.add_tlc("T1 repaired, full edit universe, pre<=1 post<=1 (+1 look-ahead)", res3)
         if res3.violated:
             ctx.violation("T1|repaired|" + res3.violated, "the Impl layer with every field copied violates %s" % res3.violated,
                           {"trace": [s["vars"] for s in res3.trace]})
         # sensitivity of the invariants: leaving any single field uncopied must be noticed
-        res4, cex4 = t1(ctx, "fields", 2, 0, True, "fields")
+        res4, cex4 = t1(ctx, "fields", 2, 1, 2, True, "fields")
         ctx.add_tlc("T1 sensitivity: each field uncopied on its own", res4)
         insensitive = sorted(
             "%s/%s" % (c, f) for c in CLASSES for f in ALL_FIELDS
@@ -681,7 +686,7 @@ def worker(job):
     import warnings
 
     warnings.simplefilter("ignore")
-    r = replay(job)
+    r = replay_job(job)
     r["job"] = job
     return r
 
@@ -799,3 +804,72 @@ def run(ctx):
         "against AbsEq of the recorded public contents",
         "multi-agent `==` raising on a fluent without initial value is outside the specified zone (counted as unspecified)",
     ]
+
+
+# ----------------------------------------------------------------------------------------
+# ./check C22 --replay FILE   and   --selftest
+# ----------------------------------------------------------------------------------------
+def replay_file(ctx, data):
+    """re-run the history of a replay file against the current tree; 1 if its signature shows again"""
+    job = data["data"].get("job")
+    if not job:
+        print("replay: the file holds a design-level (T1) counterexample: %s" % data["signature"])
+        return 0
+    t = worker(job)
+    if t["skip"]:
+        raise MachineryError("replay: base cannot be built: %s" % t["skip"])
+    judge(ctx, "replay", [t])
+    sigs = sorted({v.sig for v in ctx.violations})
+    for s in sigs:
+        print("replay: %s" % s)
+    again = data["signature"] in sigs
+    print("replay: signature %s %s" % (data["signature"], "reproduced" if again else "NOT reproduced"))
+    return 1 if again else 0
+
+
+def replay(ctx, data):
+    return replay_file(ctx, data)
+
+
+def selftest(ctx):
+    """corrupting one recorded field of a clean trace makes the judge reject it (one clause per corruption)"""
+    import copy
+
+    E = lambda **kw: dict(NOEDIT, **kw)
+    job = {
+        "id": 1,
+        "base": {"cls": "plain", "var": 1, "kind": "hand", "rich": True},
+        "pre": [E(op="teff", t="t1", f="x", k="asg", v=1), E(op="goal", a="g2")],
+        "post": [{"e": E(op="teff", t="t1", f="x", k="asg", v=2), "tgt": "both"}, {"e": E(op="object", a="o1"), "tgt": "both"},
+                 {"e": E(op="fluent", a="n", k="t"), "tgt": "o"}],
+    }
+    clean = worker(job)
+    corruptions = {
+        "eq": lambda t: t["ops"][2].__setitem__("eq", "F"),
+        "kind": lambda t: t["ops"][2].__setitem__("keq", "F"),
+        "hash": lambda t: t["ops"][3].__setitem__("heq", "F"),
+        "proj": lambda t: t["ops"][2].__setitem__("dc", "0" * 12),
+        "acc-c": lambda t: t["ops"][3].__setitem__("rc", "ok"),
+        "acc-o": lambda t: t["ops"][4].__setitem__("ro", "ok"),
+        "abs-c": lambda t: t["ops"][4]["ac"]["objs"].append("n"),
+        "clone-abs": lambda t: t["ops"][2]["ac"]["goals"].clear(),
+        "indep-c": lambda t: t["ops"][5]["ac"]["goals"].append("g1"),
+        "clone-orig": lambda t: t["ops"][2]["ao"]["teffs"].clear(),
+    }
+    traces = [clean]
+    for i, (clause, f) in enumerate(sorted(corruptions.items())):
+        t = copy.deepcopy(clean)
+        t["id"] = 100 + i
+        f(t)
+        traces.append(t)
+    judge(ctx, "selftest", traces)
+    got = {}
+    for v in ctx.violations:
+        got.setdefault(v.data["trace"]["id"], set()).add(v.data["clause"])
+    ok = not got.get(1)
+    print("selftest: clean trace %s" % ("accepted" if ok else "REJECTED %s" % sorted(got[1])))
+    for i, clause in enumerate(sorted(corruptions)):
+        hit = clause in got.get(100 + i, set())
+        print("selftest: corrupted field for clause %-10s -> %s" % (clause, "rejected by the judge" if hit else "NOT NOTICED (%s)" % sorted(got.get(100 + i, []))))
+        ok = ok and hit
+    return 0 if ok else 1
